@@ -160,10 +160,19 @@ func (e *Enc) eval(sc *Scope, x CExpr, hint types.Type) Val {
 		panic(unsupported("index in contract: " + x.String()))
 	case *CSlice:
 		base := e.eval(sc, n.X, nil)
-		if _, ok := base.Typ.Underlying().(*types.Slice); !ok {
-			panic(unsupported("slice expr in contract on non-slice: " + x.String()))
-		}
 		is := e.idxSort()
+		if _, ok := base.Typ.Underlying().(*types.Slice); !ok {
+			at, isArr := base.Typ.Underlying().(*types.Array)
+			r, et, okRow := T{}, types.Type(nil), false
+			if isArr {
+				r, et, okRow = e.arrayFieldRow(sc, n.X)
+			}
+			if !okRow {
+				panic(unsupported("slice expr in contract on non-slice: " + x.String()))
+			}
+			// obj.arr[lo:hi]: a slice of the row that models the array field
+			base = Val{Typ: types.NewSlice(et), L: []T{r, IntLit64(is, 0), IntLit64(is, at.Len()), IntLit64(is, at.Len())}}
+		}
 		lo, hi := IntLit64(is, 0), base.L[2]
 		if n.Lo != nil {
 			v := e.eval(sc, n.Lo, types.Typ[types.Int])
